@@ -161,8 +161,10 @@ class C17(Engine):
                 "faults": [], "serial": None}
         # command line
         argv = []
+        cli_cpu = cpu
         if rng.chance(5, 6):
-            argv.append("-" + (cpu if rng.chance(3, 4) else rng.pick(progs.cpus())["name"]))
+            cli_cpu = cpu if rng.chance(3, 4) else rng.pick(progs.cpus())["name"]
+            argv.append("-" + cli_cpu)
         name = "obj." + ext if rng.chance(5, 6) else "obj." + rng.pick(["hex", "srec", "txt", "uf2", "wdc", "bin", "elf", "x", ""])
         plan["name"] = name
         if fmt == "bin" or rng.chance(1, 10):
@@ -199,7 +201,7 @@ class C17(Engine):
             shown = True
             for _ in range(rng.range(0, 15)):
                 c = command(rng, cpu, lo)
-                if c.startswith("display") and cpu in NO_USLEEP:
+                if c.startswith("display") and (cpu in NO_USLEEP or cli_cpu in NO_USLEEP):
                     continue
                 lines.append(c)
                 if c.split(" ")[0] in ("run", "call", "step", ""):
@@ -261,7 +263,8 @@ class C17(Engine):
         if plan["serial"] is not None:
             files["/sim/w/ser.in"] = plan["serial"].encode("latin-1")
         env = dict(plan["env"])
-        env["event_ceiling"] = 400000
+        env["event_ceiling"] = 6000000
+        env["stdout_ceiling"] = 300000
         o = ex.call(build_request(MODE_UTIL, ["naken_util"] + plan["argv"], files, plan["faults"], plan["console"],
                                   plan["sigs"], env=env, cpu_ms=8000, wall_ms=120000))
         res.absorb(o)
@@ -286,7 +289,7 @@ class C17(Engine):
         res.probe("mode:" + plan["mode"])
         return res
 
-    ADDR_LINE = re.compile(r"^[ *!>]*(?:0x)?([0-9a-fA-F]+):", re.M)
+    ADDR_LINE = re.compile(r"^[ *!>]*(?:0x)?([0-9a-fA-F]+)(?=[:|])", re.M)
 
     def judge_stall(self, o, plan, res):
         """The process exhausted its CPU or seam-event budget.  Decide between a hang and a
@@ -324,10 +327,7 @@ class C17(Engine):
             c = copy.deepcopy(plan)
             del c["faults"][i]
             yield c
-        if plan["sigs"]:
-            c = copy.deepcopy(plan)
-            c["sigs"] = []
-            yield c
+        # planned SIGINTs are never dropped: a run loop that nobody interrupts is not a hang
         n = len(plan["console"])
         for i in range(n - 1):
             c = copy.deepcopy(plan)
